@@ -183,7 +183,9 @@ def tracked_index_rules(ctx) -> None:
                 w = n.func.attr
             if w:
                 writers.setdefault(name, []).append((w, n))
-    allowed = {"__init__": {"rebind"}, "track_wire": {"append"}, "untrack_wire": {"store:None"}, "add": {"store"}}
+    # (the constructor builds the initial list: no index has been handed out yet, growing it there is part of the initialisation, whose
+    #  result is judged below)
+    allowed = {"__init__": {"rebind", "append", "extend", "augassign"}, "track_wire": {"append"}, "untrack_wire": {"store:None"}, "add": {"store"}}
     for name, ws in writers.items():
         kinds = {w for w, _ in ws}
         ok = name in allowed and kinds <= allowed[name]
@@ -229,16 +231,22 @@ def tracked_index_rules(ctx) -> None:
                           and p.value_text() in ("len(self.tracked) - 1", "old_(len(self.tracked))") for p in ps)
     ctx.check(ok, R, "TrackedDfg.track_wire", file, tk.lineno, "tracking appends and returns the new (last) index", tk,
               found="; ".join(p.describe() + " :: " + " | ".join(p.effect_texts()) for p in ps)[:300])
-    need(ctx, R, f"{TD}.set_tracked_outputs", "TrackedDfg.set_tracked_outputs", ["self.set_outputs(*(c0 for c0 in self.tracked if c0 is not None))"],
-         "outputs set from tracked indices are the still-tracked wires in index order")
+    # (second spelling: through set_indexed_outputs with the indices of the live slots; by the rules on set_indexed_outputs, _to_wires and
+    #  tracked_wire in this same check, an index i of a slot that is not None resolves to tracked[i])
+    from ..rulekit import need_any
+    need_any(ctx, R, f"{TD}.set_tracked_outputs", "TrackedDfg.set_tracked_outputs",
+             [["self.set_outputs(*(c0 for c0 in self.tracked if c0 is not None))"],
+              ["self.set_indexed_outputs(*(c0 for c0, c1 in enumerate(self.tracked) if c1 is not None))"]],
+             "outputs set from tracked indices are the still-tracked wires in index order")
     need(ctx, R, f"{TD}.set_indexed_outputs", "TrackedDfg.set_indexed_outputs", ["self.set_outputs(*self._to_wires(L_in))"], "indexed outputs resolve ints through the tracked wires")
     init = fn_of("__init__")
     ps = [p for p in ctx.paths(f"{TD}.__init__") if p.kind != "raise"]
     ok = bool(ps)
     for p in ps:
-        st = [e for e in p.effects if isinstance(e, ast.Assign) and u(e.targets[0]) == "self.tracked"]
+        from ..rulekit import final_list_value
+        fv = final_list_value(p, "self.tracked")         # the list the path leaves there (assignment, then appends / extends)
         t = [k for t_, k in p.tests if u(t_) == "track_inputs"]
-        ok = ok and len(st) == 1 and len(t) == 1 and u(st[0].value) == ("[*self.inputs()]" if t[0] else "[]")
+        ok = ok and fv is not None and len(t) == 1 and u(fv) == ("[*self.inputs()]" if t[0] else "[]")
     ctx.check(ok, R, "TrackedDfg.__init__", file, init.lineno, "tracking starts empty or with the inputs in order", init,
               found="; ".join(p.describe() + " :: " + " | ".join(p.effect_texts()) for p in ps)[:300])
     need(ctx, R, f"{TD}.track_wires", "TrackedDfg.track_wires", ["return [self.track_wire(c0) for c0 in L_wires]"])
